@@ -33,7 +33,29 @@ type Ruler struct {
 	Stateful    map[string]bool // rules.Service method names that reach a store write
 	ActionParam *ssa.Parameter
 	DataParam   *ssa.Parameter
-	ok          bool
+	// the lock section: RunRules itself, or a package helper RunRules calls with the request list, which takes the
+	// locks and returns the function that releases them (`unlock := s.lock(rulesData); defer unlock()`)
+	LockFn   *ssa.Function
+	LockCall *ssa.Call     // the call of the helper in RunRules (nil when the section is inline)
+	LockData ssa.Value     // the request list in LockFn's frame
+	UnlockFn *ssa.Function // helper form: the closure returned by LockFn
+	ok       bool
+}
+
+// GateEntry is the instruction of RunRules at which the lock section begins.
+func (r *Ruler) GateEntry() ssa.Instruction {
+	if r.LockCall != nil {
+		return r.LockCall
+	}
+	return r.PreLock[0].(ssa.Instruction)
+}
+
+// GateDone is the instruction of RunRules after which all key locks are held.
+func (r *Ruler) GateDone() ssa.Instruction {
+	if r.LockCall != nil {
+		return r.LockCall
+	}
+	return r.PostLock[0].(ssa.Instruction)
 }
 
 func (c *Ctx) Ruler(rule string) *Ruler {
@@ -65,21 +87,61 @@ func (c *Ctx) Ruler(rule string) *Ruler {
 		c.R.Anchor(rule, "params:RunRules", "RunRules has no (action string, rulesData []*RulesData) parameters")
 		return r
 	}
-	for _, b := range r.RunRules.Blocks {
-		for _, ins := range b.Instrs {
-			ci, ok := ins.(ssa.CallInstruction)
-			if !ok {
+	collect := func(fn *ssa.Function) int {
+		n := 0
+		for _, b := range fn.Blocks {
+			for _, ins := range b.Instrs {
+				ci, ok := ins.(ssa.CallInstruction)
+				if !ok {
+					continue
+				}
+				switch {
+				case IsInvokeOf(ci, pkgLocker, "Service", "PreLock"):
+					r.PreLock = append(r.PreLock, ci)
+				case IsInvokeOf(ci, pkgLocker, "Service", "PostLock"):
+					r.PostLock = append(r.PostLock, ci)
+				case IsInvokeOf(ci, pkgLocker, "Service", "Lock"):
+					r.Locks = append(r.Locks, ci)
+				case IsInvokeOf(ci, pkgLocker, "Service", "Unlock"):
+					r.Unlocks = append(r.Unlocks, ci)
+				default:
+					continue
+				}
+				n++
+			}
+		}
+		return n
+	}
+	r.LockFn, r.LockData = r.RunRules, r.DataParam
+	if collect(r.RunRules) == 0 {
+		// the lock section may live in a package helper that is given the request list and returns the release function
+		for _, ci := range Calls(r.RunRules, func(ci ssa.CallInstruction) bool {
+			h := ci.Common().StaticCallee()
+			return h != nil && h.Blocks != nil && !ci.Common().IsInvoke() && prog.PkgPathOf(h) == prog.PkgPathOf(r.RunRules)
+		}) {
+			call, ok := ci.(*ssa.Call)
+			if !ok || r.LockCall != nil {
 				continue
 			}
-			switch {
-			case IsInvokeOf(ci, pkgLocker, "Service", "PreLock"):
-				r.PreLock = append(r.PreLock, ci)
-			case IsInvokeOf(ci, pkgLocker, "Service", "PostLock"):
-				r.PostLock = append(r.PostLock, ci)
-			case IsInvokeOf(ci, pkgLocker, "Service", "Lock"):
-				r.Locks = append(r.Locks, ci)
-			case IsInvokeOf(ci, pkgLocker, "Service", "Unlock"):
-				r.Unlocks = append(r.Unlocks, ci)
+			h := call.Call.StaticCallee()
+			if len(invokesIface(h, pkgLocker, "Service", "PreLock", "Lock", "PostLock")) == 0 {
+				continue
+			}
+			var hd ssa.Value
+			for k, a := range call.Call.Args {
+				if a == ssa.Value(r.DataParam) && k < len(h.Params) {
+					hd = h.Params[k]
+				}
+			}
+			if hd == nil {
+				continue
+			}
+			r.LockFn, r.LockCall, r.LockData = h, call, hd
+			collect(h)
+			for _, cl := range h.AnonFuncs {
+				if collect(cl) > 0 {
+					r.UnlockFn = cl
+				}
 			}
 		}
 	}
@@ -288,7 +350,8 @@ func (c *Ctx) RulerLocking(prop string) {
 		return
 	}
 	F := r.RunRules
-	data := ssa.Value(r.DataParam)
+	LF := r.LockFn
+	data := r.LockData
 	// ---------- O2 lock.covers-stateful
 	rule2 := "C04.O2 lock.covers-stateful"
 	statefulGlobals := map[*ssa.Global][]string{}
@@ -320,6 +383,7 @@ func (c *Ctx) RulerLocking(prop string) {
 		return
 	}
 	post := r.PostLock[0].(ssa.Instruction)
+	gateDone := r.GateDone()
 	var gl []*ssa.Global
 	for g := range statefulGlobals {
 		gl = append(gl, g)
@@ -331,7 +395,7 @@ func (c *Ctx) RulerLocking(prop string) {
 			d := d
 			x, path := an.Cut(an.CutQuery{From: an.Entry(F), Target: func(i ssa.Instruction) bool { return i == d.(ssa.Instruction) },
 				AcceptEdge:  c.WithSummaries(func(a *an.Atom, sub Subst) bool { return actionNe(resolveAtom(a, sub), r.ActionParam, g) }),
-				AcceptInstr: func(i ssa.Instruction) bool { return i == post }})
+				AcceptInstr: func(i ssa.Instruction) bool { return i == gateDone }})
 			want := "every path to rule evaluation either took the key locks or has [action != " + g.Name() + "]"
 			if x != nil {
 				c.R.Fail(rule2, "RunRules:"+g.Name(), c.Pos(d), "rules for action "+g.Name()+" (stateful: "+strings.Join(statefulGlobals[g], ",")+") can be evaluated without the per-key locks", want, an.PathString(c.Pos, path))
@@ -352,7 +416,7 @@ func (c *Ctx) RulerLocking(prop string) {
 	// collected first - the full-range loop over the requests that appends one key per request to the list the lock loop ranges over)
 	var keyExpr ssa.Value
 	var keyIdx ssa.Value
-	for _, l := range FindLoops(F) {
+	for _, l := range FindLoops(LF) {
 		if !l.FullRange || !l.Body[lock.Block()] {
 			continue
 		}
@@ -360,7 +424,7 @@ func (c *Ctx) RulerLocking(prop string) {
 			L, keyExpr, keyIdx = l, lock.Common().Args[0], l.Idx
 			continue
 		}
-		if elem, src, ok := appendedPerIteration(F, l.BoundLen, data); ok {
+		if elem, src, ok := appendedPerIteration(LF, l.BoundLen, data); ok {
 			// the lock argument must be the element of that list at the lock loop's own index
 			if root, idx, isElem := elemLoad(lock.Common().Args[0]); isElem && root == l.BoundLen && idx == l.Idx {
 				L, keyExpr, keyIdx = l, elem, src.Idx
@@ -391,7 +455,13 @@ func (c *Ctx) RulerLocking(prop string) {
 	}
 	// unlock deferred in the same iteration with the same key
 	okUnlock := false
+	if r.LockCall != nil {
+		okUnlock = c.unlockClosureOK(rule3, r, L, lock)
+	}
 	for _, u := range r.Unlocks {
+		if r.LockCall != nil {
+			break
+		}
 		if _, isDefer := u.(*ssa.Defer); !isDefer {
 			c.R.Fail(rule3, Fn(F), c.Pos(u), "Unlock is called directly instead of being deferred: the lock does not cover rule evaluation", "defer Unlock(lockKey)", nil)
 			continue
@@ -427,6 +497,153 @@ func (c *Ctx) RulerLocking(prop string) {
 	}
 	// ---------- C01.O13 dedupe
 	c.rulerDedupe(r, L, statefulGlobals)
+}
+
+// unlockClosureOK validates the helper form of the lock section: the helper's only return hands back a closure over the
+// list of keys it locked (one key appended per iteration of the locking loop, the very key passed to Lock); the closure
+// unlocks every element of that list (a full-range loop without skips, Unlock called or deferred there); and RunRules
+// defers the returned function at once, before anything that can return or evaluate rules.
+func (c *Ctx) unlockClosureOK(rule string, r *Ruler, L *Loop, lock ssa.CallInstruction) bool {
+	H, U := r.LockFn, r.UnlockFn
+	fail := func(pos ssa.Instruction, found, want string) bool {
+		c.R.Fail(rule, Fn(H), c.Pos(pos), found, want, nil)
+		return false
+	}
+	if U == nil {
+		return fail(lock.(ssa.Instruction), "the lock helper does not return a function that releases the keys", "return func() { for each locked key: Unlock(key) }")
+	}
+	rets := an.Returns(H)
+	if len(rets) != 1 || len(rets[0].Results) != 1 {
+		return fail(lock.(ssa.Instruction), "the lock helper has more than one exit or result", "one return of the release function, after PostLock")
+	}
+	mc, ok := an.Result(rets[0], 0).(*ssa.MakeClosure)
+	if !ok || mc.Fn != ssa.Value(U) {
+		return fail(rets[0], "the lock helper does not return its release closure", "return func() { ... Unlock ... }")
+	}
+	// the captured key list: appended once per iteration of the locking loop with the locked key
+	var listCell ssa.Value
+	var uLoop *Loop
+	var unlock ssa.CallInstruction
+	for _, u := range r.Unlocks {
+		if u.Parent() == U {
+			unlock = u
+		}
+	}
+	if unlock == nil {
+		return fail(rets[0], "the release closure does not call Unlock", "Unlock of every locked key")
+	}
+	for _, l := range FindLoops(U) {
+		if l.FullRange && l.Body[unlock.Block()] {
+			uLoop = l
+		}
+	}
+	if uLoop == nil {
+		return fail(unlock.(ssa.Instruction), "the release closure does not unlock inside a full-range loop over the locked keys", "for _, key := range lockedKeys { Unlock(key) }")
+	}
+	root, idx, isElem := elemLoad(unlock.Common().Args[0])
+	if !isElem || idx != uLoop.Idx || root != uLoop.BoundLen {
+		return fail(unlock.(ssa.Instruction), "the key unlocked is not the element of the locked-key list at the loop's own index", "Unlock(lockedKeys[j])")
+	}
+	if uLoop.IterationSkips(func(i ssa.Instruction) bool { return i == unlock.(ssa.Instruction) }) || len(uLoop.BreakEdges()) > 0 {
+		return fail(unlock.(ssa.Instruction), "the release closure can skip a key or stop early", "every locked key is unlocked")
+	}
+	// the list in the closure is the captured cell of the helper's list
+	if u, isLoad := root.(*ssa.UnOp); isLoad {
+		if fv, isFV := u.X.(*ssa.FreeVar); isFV {
+			for k, f := range U.FreeVars {
+				if f == fv && k < len(mc.Bindings) {
+					listCell = mc.Bindings[k]
+				}
+			}
+		}
+	}
+	if listCell == nil {
+		return fail(unlock.(ssa.Instruction), "the list the release closure ranges over is not a variable of the lock helper", "the list of keys built while locking")
+	}
+	// in H: the cell holds a list to which the locked key is appended in every iteration of the locking loop, and nothing else
+	nApp := 0
+	for _, ref := range *listCell.Referrers() {
+		st, isStore := ref.(*ssa.Store)
+		if !isStore || st.Addr != listCell {
+			continue
+		}
+		app, isApp := st.Val.(*ssa.Call)
+		if isApp && isBuiltin(app, "append") && len(app.Call.Args) == 2 {
+			// append(list, key): variadic packing creates a one-element slice of the key
+			if !L.Body[st.Block()] || L.IterationSkips(func(i ssa.Instruction) bool { return i == ssa.Instruction(st) }) {
+				return fail(st, "a locked key may not be recorded for release", "lockedKeys = append(lockedKeys, key) next to every Lock(key)")
+			}
+			if !appendsValue(app, lock.Common().Args[0]) {
+				return fail(st, "the key recorded for release is not the key that was locked", "append(lockedKeys, lockKey) with the key passed to Lock")
+			}
+			nApp++
+			continue
+		}
+		if mk, isMk := st.Val.(*ssa.MakeSlice); isMk {
+			if k, isC := mk.Len.(*ssa.Const); isC && k.Int64() == 0 && !L.Body[st.Block()] {
+				continue // initial empty list
+			}
+		}
+		return fail(st, "the list of locked keys is assigned something other than an append of the locked key", "only lockedKeys = append(lockedKeys, key)")
+	}
+	if nApp != 1 {
+		return fail(lock.(ssa.Instruction), fmt.Sprintf("expected one append of the locked key per iteration, found %d", nApp), "lockedKeys = append(lockedKeys, key)")
+	}
+	// in RunRules: `defer <result of the helper>()` follows the call before any return or rule evaluation
+	F := r.RunRules
+	var dfr *ssa.Defer
+	for _, ref := range *r.LockCall.Referrers() {
+		if d, isDefer := ref.(*ssa.Defer); isDefer && d.Call.Value == ssa.Value(r.LockCall) {
+			dfr = d
+		}
+	}
+	if dfr == nil {
+		c.R.Fail(rule, Fn(F), c.Pos(r.LockCall), "the release function returned by the lock helper is not deferred by RunRules", "unlock := lock(rulesData); defer unlock()", nil)
+		return false
+	}
+	if x, path := an.Cut(an.CutQuery{From: an.After(r.LockCall), Target: func(i ssa.Instruction) bool {
+		if _, isRet := i.(*ssa.Return); isRet {
+			return true
+		}
+		for _, d := range r.Dispatch {
+			if i == d.(ssa.Instruction) {
+				return true
+			}
+		}
+		return false
+	}, AcceptInstr: func(i ssa.Instruction) bool { return i == ssa.Instruction(dfr) }}); x != nil {
+		c.R.Fail(rule, Fn(F), c.Pos(x), "RunRules can return or evaluate rules after taking the locks without having deferred their release", "defer unlock() immediately after the lock helper", an.PathString(c.Pos, path))
+		return false
+	}
+	return true
+}
+
+// appendsValue: app is append(list, v) for the given value (go/ssa packs the variadic argument into a one-element array).
+func appendsValue(app *ssa.Call, v ssa.Value) bool {
+	sl, ok := app.Call.Args[1].(*ssa.Slice)
+	if !ok {
+		return false
+	}
+	arr, ok := sl.X.(*ssa.Alloc)
+	if !ok {
+		return false
+	}
+	n, okv := 0, false
+	for _, ref := range *arr.Referrers() {
+		ia, ok := ref.(*ssa.IndexAddr)
+		if !ok {
+			continue
+		}
+		for _, r2 := range *ia.Referrers() {
+			if st, ok := r2.(*ssa.Store); ok && st.Addr == ssa.Value(ia) {
+				n++
+				if st.Val == v || sameCellLoad(st.Val, v) {
+					okv = true
+				}
+			}
+		}
+	}
+	return n == 1 && okv
 }
 
 // appendedPerIteration recognises a list built as `list := make(_, 0, n); for i := range data { ...; list = append(list, e) }`:
@@ -585,7 +802,7 @@ func sameCellLoad(a, b ssa.Value) bool {
 func (c *Ctx) rulerDedupe(r *Ruler, lockLoop *Loop, stateful map[*ssa.Global][]string) {
 	rule := "C01.O13 dedupe"
 	F := r.RunRules
-	pre := r.PreLock[0].(ssa.Instruction)
+	pre := r.GateEntry()
 	why := "no full-range loop over the request list with a seen-set lookup found before the locks are taken"
 	// scanLoop finds the dedupe loop of fn over its list value `data`
 	scanLoop := func(fn *ssa.Function, data ssa.Value, exclude *Loop) (*Loop, *ssa.Lookup, ssa.Value) {
@@ -788,7 +1005,7 @@ func (c *Ctx) GateTypestate(prop string) {
 		return
 	}
 	rule := "C15.O1 gate.typestate"
-	F := r.RunRules
+	F := r.LockFn
 	// forward dataflow over a set of states per block: 1 = before the gate, 2 = inside, 4 = after, 8 = inside with the release deferred
 	g := c.ModGraph()
 	forbidden := map[*ssa.Function]bool{r.RunRules: true}
@@ -941,7 +1158,7 @@ func (c *Ctx) GateTypestate(prop string) {
 			return lockerMethods[ci.Common().StaticCallee()]
 		}) {
 			n++
-			if fn != F {
+			if fn != F && (r.UnlockFn == nil || fn != r.UnlockFn) {
 				c.R.Fail(ruleW, Fn(fn), c.Pos(ci), "the locker is used outside RunRules ("+CalleeName(ci)+"): key locks taken there are not ordered by the gate", "only RunRules calls the locker", nil)
 			}
 		}
